@@ -67,6 +67,10 @@ class C13(Check):
             # other sampler objects of the same class live in the same process (a calibrator usually holds several):
             # they are used, on spaces of other dimensions, before and between the operations on ours
             scn["siblings"] = [[rng.randint(1, 12), rng.randint(1, 4)] for _ in range(rng.randint(1, 2))]
+        if kind == "halton" and rng.random() < 0.03:
+            # a long run: the cursor passes 2^16 (the top of the start-index range) and must keep counting
+            scn["dims"] = rng.randint(1, 3)
+            ops.insert(rng.randrange(0, len(ops)), ["skip", rng.randint(12000, 24000)])
         if rng.random() < 0.06:
             # the same object is later used on a space of another dimension
             ops.insert(rng.randrange(1, len(ops)), ["dims", rng.randint(1, 12)])
@@ -182,6 +186,19 @@ class C13(Check):
                 elif op[0] == "restart":
                     obj = restart(obj)
                     res.stats["restart@sampler"] += 1
+                elif op[0] == "skip":
+                    # one very large batch: only its first and last points are judged, the batches after it show whether the
+                    # sequence went on from the right index
+                    pre = draw(obj, op[1])
+                    head, tail = pre[:2], pre[-2:]
+                    if not judge_batch(head, f"op {oi} {op} (first points) after {origin}"):
+                        return
+                    stream.extend(pre[:-2])
+                    if not judge_batch(tail, f"op {oi} {op} (last points) after {origin}"):
+                        return
+                    stream.extend(tail)
+                    n_batches += 1
+                    res.stats["probe:halton-cursor-beyond-2^16"] += 1 if (t0 or 0) + len(stream) > 2 ** 16 else 0
                 elif op[0] == "dims":
                     # same object, another space: within the new dimension the sequence rule must hold again
                     if stream and not self.twin_equal(kind, scn, origin, stream, draw, res, twin_ctor):
@@ -216,7 +233,7 @@ class C13(Check):
 
     def twin_equal(self, kind, scn, origin, stream, draw, res, twin_ctor):
         """A second object with the same seed history, asked for one batch of the total size, emits bitwise the same points."""
-        if origin[0] == "dims":
+        if origin[0] == "dims" or len(stream) > 5000:
             return True
         if origin[0] == "ctor":
             twin = twin_ctor
